@@ -28,6 +28,7 @@ import (
 	"fmt"
 	"io"
 	"io/ioutil"
+	"log"
 	"net"
 	"net/http"
 	"net/http/httptest"
@@ -660,6 +661,7 @@ func corpus(r *c.Rng, tier string) []*spec {
 func main() {
 	a := c.ParseArgs()
 	c.Quiet()
+	log.SetOutput(io.Discard) // net/http servers log through the default logger
 	r := c.NewRng(a.Seed)
 	dir := c.Scratch(a.Out)
 	defer os.RemoveAll(dir)
@@ -699,5 +701,4 @@ func main() {
 	}
 	c.Must(c.WriteShards(a.Out, "Corr_C12", cases, a.Shard))
 	fmt.Printf("cases=%d\n", len(cases))
-	_ = io.EOF
 }
